@@ -631,3 +631,21 @@ package protocol
 //@   loop 0:
 //@     invariant 0 <= i && i <= n && n == len(a.args) && sameSlice(a.args, old(a.args))
 //@     invariant extends(dst, old(dst)) && spareOnly(old(dst))
+
+// C11 (multipart file part): the bytes read for content-type sniffing are written to the part as read, and the
+// rest of the same reader is copied behind them on every successful path.
+//@ ghost var mpSniffed bool
+//@ ghost var mpCopied bool
+//@ func WriteMultipartFormFile(w, fieldName, fileName, r) err
+//@   props C11
+//@   abstract
+//@   noinline
+//@   modifies mpSniffed, mpCopied
+//@   ghostset-at-entry mpSniffed = false
+//@   ghostset-at-entry mpCopied = false
+//@   assert before Write: !mpSniffed && sameSlice(arg1, cbuf[:size])
+//@   ghostset after Write: mpSniffed = true
+//@   assert before Copy: mpSniffed && arg1 == r
+//@   ghostset after Copy: mpCopied = true
+//@   top-ensures err == nil ==> mpSniffed && mpCopied
+
